@@ -53,7 +53,7 @@ def val(w, c, letter):
 
 
 def scen(w, variant="exit"):
-    pipe = pl.Pipe(w, False, extended={"M204": "merge", "M205": "merge"})
+    pipe = pl.Pipe(w, False, extended={"M204": "merge", "M205": "merge"}, fmt_fork=True)
     pipe.add_region(pl.fresh_region(w, "rect", "r0"))
     pipe.prologue()
     V, P = pipe.V, pipe.P
